@@ -11,7 +11,7 @@ R-C07-5  lazily evaluated branches of if_then_else run under the condition's wir
 """
 import ast
 
-from ..loader import norm, AnalysisError
+from ..loader import norm, AnalysisError, parents
 from ..efftree import nf, eq_mod_raise, render, always_raises
 from .c06 import get_interp, strip_weak, VALUE_MODULES
 
@@ -133,6 +133,19 @@ def _dominating_zero_raise(fi, node, txt):
     return False
 
 
+def _canon_atom(t, truth, env):
+    """canonical text of a test atom with its polarity; (in)equalities of polynomials are sign/side-normalised"""
+    from ..poly import poly_of
+    if isinstance(t, ast.Compare) and len(t.ops) == 1 and isinstance(t.ops[0], (ast.Eq, ast.NotEq)):
+        a, b = poly_of(t.left, env), poly_of(t.comparators[0], env)
+        if a is not None and b is not None:
+            d = a - b
+            txt = min(str(d), str(-d))
+            ne = isinstance(t.ops[0], ast.NotEq) == truth
+            return "%s %s 0" % (txt, "!=" if ne else "==")
+    return ("" if truth else "not ") + norm(t)
+
+
 def rule_dummy_path(repo, rule):
     fi = repo.fn("pysnark.runtime", "add_constraint")
     it = get_interp(repo)
@@ -153,9 +166,10 @@ def rule_dummy_path(repo, rule):
     params = fi.params[:3]
     v, w, y = params
     dummy = None
+    from ..flatten import resolve_locals
     for s in arm:
-        if isinstance(s, ast.Assign) and isinstance(s.value, ast.Call) and norm(s.value.func).endswith("PrivVal"):
-            dummy = (s.targets[0].id, s.value.args[0])
+        if isinstance(s, ast.Assign) and isinstance(s.value, ast.Call) and norm(s.value.func).endswith("PrivVal") and s.value.args:
+            dummy = (s.targets[0].id, resolve_locals(fi.node, s.value.args[0]))
     where = fi.loc(guarded_if)
     if dummy is None:
         rule.violation(where, fi.fq, norm(arm)[:200], "guarded arm allocates no dummy witness", "add_constraint/dummy")
@@ -182,6 +196,39 @@ def rule_dummy_path(repo, rule):
         rule.ok(where, fi.fq, "add_constraint_unsafe(guard, %s, ZERO)" % dn)
     else:
         rule.violation(where, fi.fq, str(shapes), "guarded arm does not emit guard*dummy = 0", "add_constraint/c2")
+    # transparency of errors: the guarded arm raises only where the unguarded arm raises as well
+    from ..hints import atoms_of
+
+    def atoms_for(raise_node, top):
+        out = set()
+        child = raise_node
+        for p_ in parents(raise_node):
+            if p_ is fi.node:
+                break
+            if isinstance(p_, ast.If) and p_ is not top:
+                pol = any(child is s_ or any(child is x for x in ast.walk(s_)) for s_ in p_.body)
+                for t_, tr in atoms_of(resolve_locals(fi.node, p_.test), pol):
+                    out.add(_canon_atom(t_, tr, env))
+            child = p_
+        return out
+    other = guarded_if.orelse if arm is guarded_if.body else guarded_if.body
+    un_raises = [x for s in other for x in ast.walk(s) if isinstance(x, ast.Raise)]
+    g_raises = [x for s in arm for x in ast.walk(s) if isinstance(x, ast.Raise)]
+    un_atoms = [atoms_for(x, guarded_if) for x in un_raises]
+    if not g_raises:
+        rule.ok(where, fi.fq, "guarded arm raises nothing of its own", "the slack goes into the dummy witness; a true guard then "
+                "forces it to 0 exactly where the unguarded arm would have raised")
+    for x in g_raises:
+        ga = atoms_for(x, guarded_if)
+        if any(ua <= ga for ua in un_atoms):
+            rule.ok(fi.loc(x), fi.fq, "guarded raise under {%s}" % ", ".join(sorted(ga)), "implies the unguarded arm's raise condition")
+        else:
+            missing = sorted(min(un_atoms, key=lambda ua: len(ua - ga)) - ga) if un_atoms else ["<the unguarded arm never raises>"]
+            rule.violation(fi.loc(x), fi.fq, "guarded raise under {%s}; unguarded raise needs {%s}" % (
+                ", ".join(sorted(ga)), "} or {".join(", ".join(sorted(ua)) for ua in un_atoms)),
+                "under a true guard add_constraint raises where the same unguarded call does not (missing condition: %s), so "
+                "valid guarded code fails - e.g. callers that pass check=False because their identity holds only mod p" % ", ".join(missing),
+                "add_constraint/guarded-raise")
 
 
 def rule_hint_arms(repo, rule, modules):
@@ -290,6 +337,9 @@ def check(repo, rep, tier):
             r6.undecided(fi.loc(call), fi.fq, term, und[0])
         else:
             r6.ok(fi.loc(call), fi.fq, term, "identity of the hints on every path, LinComb.ONE taken as the guard wire")
+    r8 = rep.rule("R-C07-8", "emission is memoryless: no state kept from a (possibly false-guarded) earlier call decides later emission", floor=4)
+    from .memoryless import rule_memoryless
+    rule_memoryless(repo, r8)
     r7 = rep.rule("R-C07-7", "nested guards: suppression is inherited (or-ed), state restored exactly (shared with C08)", floor=10)
     from .c08 import guard_discipline
     guard_discipline(repo, r7)
